@@ -83,7 +83,7 @@ class RTxt(object):
         self._next_row()
 
     # -- statements ----------------------------------------------------------------------------------
-    def print_(self, s, newline=True, eager_final=False):
+    def print_(self, s, newline=True, eager_final=False, single_newline=False):
         """
         PRINT "s" or PRINT "s"; (s: bytes of plain printable characters).
         eager_final: when the last character lands in the last column, complete the wrap at once (scrolling
@@ -99,7 +99,12 @@ class RTxt(object):
             if eager_final and self.wrapped and not newline:
                 self._resolve()
         if newline:
-            self.newline()
+            if single_newline and self.wrapped:
+                # output routes that end the line with one carriage return only (WRITE, PRINT# to SCRN:):
+                # the return completes the pending wrap and nothing more
+                self._resolve()
+            else:
+                self.newline()
 
     def locate(self, r, c):
         self.row, self.col, self.wrapped = r, c, False
